@@ -80,5 +80,5 @@ cScalarsN == {VS(<<"y">>), VF(<<"1", ".", "5">>), VF(<<"-", "0">>)}      \* (neg
 cContsN == {EmptyList}
 \* two attribute entries on one element, empty and non-empty values (whatever order the runtime visits them in)
 cKeysA2 == {<<"a">>, Cs1(AP) \o <<"x">>, Cs1(AP) \o <<"y">>, Cs1(AP) \o <<"z">>}
-cScalarsA2 == {VS(<<>>), VS(<<"v">>), VS(<<"w", "\\", "t">>)}      \* (a backslash in an attribute value is written as it is)
+cScalarsA2 == {VS(<<>>), VS(<<"v">>), VS(<<"w", "\\", "t", "%", "s">>)}      \* (a backslash in an attribute value is written as it is)
 =============================================================================
